@@ -6,8 +6,8 @@ case is executed by the model driver and by the real nixio on a real HDF5 file; 
 observation (dtype, extent, len, size, content by bit pattern, gzip filter).  The oracle replays the history on
 an in-memory numpy mirror, independently of the model.
 """
+import json
 import os
-import struct
 
 import numpy as np
 
@@ -289,11 +289,14 @@ def run_impl(case, path):
 def _worker_impl(args):
     k, case, path = args
     try:
-        return k, run_impl(case, path)
+        r = run_impl(case, path)
     except core.InfraError:
         raise
     except Exception as e:
-        return k, {"impl_exception": "%s: %s" % (type(e).__name__, str(e)[:200])}
+        r = {"impl_exception": "%s: %s" % (type(e).__name__, str(e)[:200])}
+    # a string is not tracked by the garbage collector: File.close() runs gc.collect(), so keeping thousands of
+    # result dicts alive would make every later close slower (quadratic run time)
+    return k, json.dumps(r)
 
 
 def _worker_oracle(args):
@@ -305,26 +308,24 @@ def _worker_oracle(args):
     except Exception as e:
         f, n = Failure("unexpected exception while writing/reading the array", case,
                        "%s: %s" % (type(e).__name__, str(e)[:200]), "no exception", "nixio"), 1
-    return k, (f.to_json() if f is not None else None), n
+    return k, (json.dumps(f.to_json()) if f is not None else None), n
 
 
 def parallel(ctx, fn, cases, tag):
-    """run fn over the cases in a few forked workers (each case has its own HDF5 file under ctx.scratch);
-    falls back to in-process execution when forking is not possible"""
+    """run fn over the cases in a few forked workers (each worker has HDF5 files of its own under ctx.scratch);
+    falls back to in-process execution when forking is not possible.  Everything alive now is frozen first."""
     import multiprocessing as mp
+    _cheap_gc()
     nproc = max(1, min(6, (os.cpu_count() or 2) // 2))
-    jobs = [(k, c, ctx.tmpfile("%s%d.nix" % (tag, k % (4 * nproc)))) for k, c in enumerate(cases)]
-    if nproc == 1 or len(jobs) < 40:
-        return [fn(j) for j in jobs]
-    # interleave so that every worker gets files of its own: chunk j uses names k % (4*nproc) with k ≡ j mod nproc
-    chunks = [jobs[i::nproc] for i in range(nproc)]
-    chunks = [[(k, c, ctx.tmpfile("%s-w%d-%d.nix" % (tag, w, i % 4))) for i, (k, c, _) in enumerate(ch)]
-              for w, ch in enumerate(chunks)]
+    if nproc == 1 or len(cases) < 40:
+        return [fn((k, c, ctx.tmpfile("%s-%d.nix" % (tag, k % 4)))) for k, c in enumerate(cases)]
+    chunks = [[(k, cases[k], ctx.tmpfile("%s-w%d-%d.nix" % (tag, w, i % 4)))
+               for i, k in enumerate(range(w, len(cases), nproc))] for w in range(nproc)]
     try:
         with mp.get_context("fork").Pool(nproc) as pool:
             parts = pool.map(_run_chunk, [(fn.__name__, ch) for ch in chunks])
     except (OSError, ValueError):
-        return [fn(j) for j in jobs]
+        return [fn((k, c, ctx.tmpfile("%s-%d.nix" % (tag, k % 4)))) for k, c in enumerate(cases)]
     out = [r for part in parts for r in part]
     out.sort(key=lambda r: r[0])
     return out
@@ -880,7 +881,7 @@ FIXED_CASES = [
 def gen_cases(ctx):
     g = Gen(ctx.rng)
     cases = []
-    n = ctx.budget(2700, 40000)
+    n = ctx.budget(5400, 30000)
     triples = [(a, b, c) for a in COMPR for b in COMPR for c in COMPR]
     for i in range(n):
         t = triples[i % 27]
@@ -943,7 +944,7 @@ def correspondence(ctx):
     compr_seen = set()
     impl_out = [r[1] for r in parallel(ctx, _worker_impl, cases, "c")]
     for k, (c, m) in enumerate(zip(cases, model_cases)):
-        im = impl_out[k]
+        im = json.loads(impl_out[k])
         if m != im:
             disagreements.append(Disagreement(c, m, im))
         o = im.get("ok", {})
@@ -1022,9 +1023,9 @@ def oracle(ctx, broken, hints):
             cases.append(h)
     cases += FIXED_CASES
     cases += [c for c in core.load_corpus(PROP) if isinstance(c, dict)]
-    n = ctx.budget(600, 8000)
+    n = ctx.budget(1000, 6000)
     if broken:
-        n = ctx.budget(5000, 40000)
+        n = ctx.budget(5000, 30000)
     triples = [(a, b, c) for a in COMPR for b in COMPR for c in COMPR]
     for i in range(n):
         cases.append(g.case(triples[i % 27]))
@@ -1033,7 +1034,7 @@ def oracle(ctx, broken, hints):
     checked = 0
     for k, fj, n_obs in parallel(ctx, _worker_oracle, cases, "o"):
         checked += n_obs
-        f = Failure(**fj) if fj is not None else None
+        f = Failure(**json.loads(fj)) if fj is not None else None
         if f is not None:
             key = f.what
             if key not in seen or len(failures) < 5:
@@ -1057,20 +1058,28 @@ def replay_failure(ctx, fj):
 
 READY = True
 MANIFEST = {
-    "level_text": "Kernel-checked theorems over a Lean model of nixio's array I/O logic (create_data_array dtype/shape "
-                  "rules, DataSet.append's offset/enlarge/hyperslab computation, write_direct, region assignment with "
-                  "h5py index normalisation and source broadcasting, data_extent resize, compression resolution "
-                  "instantiated with the enum and resolution statements regenerated from the source on every run): "
-                  "append equals concatenation pointwise on every multi-index for every rank, axis and extent "
-                  "(incl. 0) and is refused otherwise; every history of write/assign/append/resize/reopen steps reads "
-                  "back the fold of the reference semantics (last write wins per multi-index); no step changes the "
-                  "element type, shapes change only as stated, stored elements stay values of the element type; the "
-                  "resolved compression never influences what is read; complete resolution table.",
-    "level_note": "Partial: libhdf5/h5py storage (extent change, hyperslab write, gzip, close/reopen, type conversion, "
-                  "variable-length strings) is an executable stand-in in the model, exercised (not proved) by the "
-                  "differential runs on real HDF5 files with bit-pattern comparison. Trusted: Lean kernel; axioms "
-                  "propext/Classical.choice/Quot.sound; the compression translator; the correspondence harness.",
-    "technique": "Lean 4 proof (induction over histories, pointwise refinement to a reference semantics, decide over "
-                 "the regenerated compression table) with differential correspondence on real HDF5 files and a numpy "
-                 "mirror oracle",
+    "level_text": "Kernel-checked theorems (12, no Mathlib, axioms within propext/Classical.choice/Quot.sound) over a "
+                  "Lean model of nixio's array I/O logic: create_data_array's dtype/shape rules, DataSet.append's "
+                  "rank/axis/shape checks and offset/enlarge/hyperslab computation (with the axis validation of the "
+                  "fix: commit), write_direct, region assignment with h5py's index normalisation and source "
+                  "broadcasting, data_extent resize, single/region reads, and the file->block->array compression "
+                  "resolution instantiated with the enum and the resolution statements regenerated from the source on "
+                  "every run. Proved for all inputs and histories: append = concatenation pointwise on every "
+                  "multi-index for every rank, axis and extent incl. 0, ValueError otherwise; every list of "
+                  "write/assign/append/resize/reopen steps reads back the fold of a reference semantics (functional "
+                  "update per multi-index), last write wins per multi-index; no step changes element type or filter "
+                  "flag, shapes change exactly as stated, refused steps change nothing; stored elements stay values "
+                  "of the element type; a region reads back the (broadcast) source assigned through it; creation with "
+                  "data reads back the data; content never depends on the gzip flag; complete 3x3x3x2 resolution table.",
+    "level_note": "Partial by nature: libhdf5/h5py storage (extent change, hyperslab write, gzip, close/reopen, type "
+                  "conversion, variable-length strings) is an executable stand-in inside the model; it is exercised, "
+                  "not proved, by the differential runs (thousands of seeded histories per run on real HDF5 files in "
+                  "forked workers, all 12 element types incl. NaN payloads/-0/extremes/non-ASCII text, ranks 1-4, "
+                  "extents 0-5, every compression triple, reopen at random points, bit-pattern comparison after every "
+                  "step) and by the independent numpy-mirror oracle. Outside the model: conversion between element "
+                  "kinds, NUL in text, 0-d arrays, Ellipsis/fancy indices (C06), h5py's unchecked zero-length surplus "
+                  "source dimension. Trusted: Lean kernel; the compression translator; the correspondence harness.",
+    "technique": "Lean 4 proof (structural induction over shapes and histories, pointwise refinement to a reference "
+                 "semantics, case analysis over the regenerated compression enum) with differential correspondence on "
+                 "real HDF5 files and a numpy-mirror property oracle",
 }
